@@ -41,6 +41,7 @@ MUTANTS = [
     ("c01-swallow-write-error", "C01", GS, '        with file_path.open("w", encoding="utf-8") as f:\n            f.write(module_text)', '        try:\n            with file_path.open("w", encoding="utf-8") as f:\n                f.write(module_text)\n        except OSError as error:\n            logging.warning(error)'),
     ("c01-api-mkdir-no-parents", "C01", API, "    file.parent.mkdir(parents=True, exist_ok=True)", "    file.parent.mkdir(exist_ok=True)"),
     ("c01-retry-forever", "C01", GS, '        with file_path.open("w", encoding="utf-8") as f:\n            f.write(module_text)', '        while True:\n            try:\n                with file_path.open("w", encoding="utf-8") as f:\n                    f.write(module_text)\n                break\n            except OSError:\n                continue'),
+    ("c01-swallow-everything-continue", "C01", GS, '        with file_path.open("w", encoding="utf-8") as f:\n            f.write(module_text)', '        try:\n            with file_path.open("w", encoding="utf-8") as f:\n                f.write(module_text)\n        except BaseException:  # noqa: BLE001\n            continue'),
     ("c13-description-drops-blank-lines", "C13", SG, "            else:\n                full_docstring += f\"\\n{indentations} *\"\n", "            else:\n                pass\n"),
     ("c13-description-keeps-first-paragraph-only", "C13", SG, "        splitted_docstring = description.split(\"\\n\")\n", "        splitted_docstring = description.split(\"\\n\\n\")[0].split(\"\\n\")\n"),
     ("c13-cache-key-short-name", "C13", DP, "        if self.__cached_node != qname or qname.endswith(\"__init__\"):\n            self.__cached_node = qname\n", "        short_name = qname.split(\".\")[-1]\n        if self.__cached_node != short_name or qname.endswith(\"__init__\"):\n            self.__cached_node = short_name\n"),
